@@ -15,11 +15,11 @@ def main():
     filt = sys.argv[2] if len(sys.argv) > 2 else None
     t0 = time.time()
     for name in ctx.registry.lemma_order:
-        if filt and filt not in name and not ctx.registry.lemmas[name].kw.get('assumed'): continue
+        if filt and not any(f in name for f in filt.split('|')) and not ctx.registry.lemmas[name].kw.get('assumed'): continue
         rep = ctx.verify_lemma(ctx.registry.lemmas[name])
         print('lemma', name, 'paths', rep.paths, 'unsupported', rep.unsupported, '%.2fs' % rep.secs)
     for key, c in ctx.registry.contracts.items():
-        if filt and filt not in key[1]: continue
+        if filt and not any(f in key[1] for f in filt.split('|')): continue
         rep = ctx.verify_function(c)
         print('function', key[1], 'paths', rep.paths, 'unsupported', rep.unsupported, '%.2fs' % rep.secs)
     agg = {}
